@@ -1,4 +1,5 @@
-import BbRe.Lemmas.SchedTreeRefine
+import BbRe.Lemmas.SchedTreeLock
+import BbRe.Lemmas.SchedInvParked
 /-!
 # C04 (tree layer) — the invocation tree as state refines the scheduler model
 
@@ -47,5 +48,32 @@ theorem refines_sched_run (ts : TState) (gs : List TSeg) :
       refine ⟨g.seg :: gs', by simpa using hsub.cons_cons g.seg, ?_⟩
       simp only [run, refines_sched ts ts1 g hg]
       exact hrun
+
+/-- **handoff_and_pick_admissible.**  The ghost log `decisions` is parallel to `State.assigned` (one
+entry per assignment ever made to a real worker, same worker and task), and every entry was in the
+admissible set computed from the tree of that moment: a task taken from the queue
+(`assignNextQueuedTask`) hands out an operation of `Fair.specPick` on the snapshot of the worker's
+size-class queue with the worker's last invocation, stickiness starting times and limits; a task handed
+to a parked worker (`task.schedule`) goes to a member of `handoffAdm` for the task's invocations.  This
+ties the snapshot theorems of `Properties/C04.lean` to runs. -/
+theorem handoff_and_pick_admissible (ts : TState) (h : TReachable ts) :
+    ts.decisions.map dkey = ts.s.assigned ∧
+    ∀ d ∈ ts.decisions,
+      match d with
+      | .pick _ _ _ tree view op retained => (op, retained) ∈ Fair.specPick tree view
+      | .handoff q w _ nodes invs => w ∈ handoffAdm nodes q invs := by
+  have hl := lock_reachable h
+  refine ⟨hl.1, fun d hd => ?_⟩
+  have := hl.2 d hd
+  cases d <;> exact this
+
+/-- **no_queued_while_parked** (C04), scheduler-level form: in every reachable state, while a worker is
+parked in a size-class queue no task of that queue is queued, and every parked worker is undrained and
+not terminating. -/
+theorem no_queued_while_parked (ts : TState) (h : TReachable ts) :
+    ∀ wk ∈ ts.s.workers, wk.parked = true →
+      queuedTasks ts.s wk.scq = [] ∧ wk.terminating = false ∧
+      (∀ sq, ts.s.scq? wk.scq = some sq → isDrained sq wk = false) :=
+  BbRe.Lemmas.SchedInv.parkedOK_reachable (refines_sched_reachable ts h)
 
 end BbRe.Properties.C04Tree
